@@ -39,6 +39,9 @@ func ReadLenData(r io.Reader) ([]byte, error) {
 		return nil, err
 	}
 	var length = binary.BigEndian.Uint16(tmp[:])
+	if length < 2 {
+		return nil, fmt.Errorf("data length %d less than prefix size", length)
+	}
 	var buf = make([]byte, length-2)
 	if _, err := io.ReadFull(r, buf); err != nil {
 		return nil, err
